@@ -139,7 +139,7 @@ var frozenInitAllow = map[string]bool{
 	"strings": true, "bytes": true, "math": true, "math/bits": true, "sort": true,
 	"encoding/base64": true, "encoding/hex": true, "errors": false, "io": true,
 	"time": true, "regexp/syntax": true, "regexp": true, "encoding/json": true,
-	"context": true, "math/rand": false, "fmt": false, "slices": true, "cmp": true,
+	"context": true, "math/rand": false, "fmt": true, "go/token": true, "go/scanner": true, "internal/fmtsort": true, "slices": true, "cmp": true,
 	"html": true, "bufio": true, "encoding": true, "internal/bytealg": false,
 }
 
@@ -330,6 +330,7 @@ func (i *interpreter) resetDynamic() {
 		cells[k] = zero(t)
 	}
 	i.dynCells = cells
+	i.dynInited = map[*ssa.Package]bool{}
 }
 
 func (e *Engine) push(it workItem) {
@@ -513,6 +514,7 @@ func (e *Engine) runPath(i *interpreter, fn *ssa.Function, it workItem) {
 	i.guardLimit = nil
 	i.guardDecLimit = nil
 	i.acc = nil
+	i.realFmt = false
 	i.goroutinesReset()
 	end := "completed"
 	var abort *pathAbort
@@ -555,11 +557,6 @@ func (e *Engine) runPath(i *interpreter, fn *ssa.Function, it workItem) {
 				e.noteUnclean(end)
 			}
 		}()
-		tB := time.Now()
-		for _, p := range e.dynOrder {
-			call(i, nil, token.NoPos, p.Func("init"), nil)
-		}
-		e.tInit.Add(int64(time.Since(tB)))
 		tC := time.Now()
 		defer func() { e.tRun.Add(int64(time.Since(tC))) }()
 		call(i, nil, token.NoPos, fn, nil)
